@@ -487,16 +487,46 @@ class Interp:
                 raise Unsupported(f"for over {type(it).__name__}")
             if len(it) > 4096:
                 raise Unsupported("long loop")
+            broke = False
             for x in it:
                 self.assign(st.target, x, env, st)
                 try:
                     r = self.exec_block(st.body, env)
                 except _Break:
+                    broke = True
                     break
                 except _Continue:
                     continue
                 if r is not None:
                     return r
+            if st.orelse and not broke:
+                return self.exec_block(st.orelse, env)
+            return None
+        if isinstance(st, ast.While):
+            broke, n = False, 0
+            while True:
+                try:
+                    if not self.truth(self.ev(st.test, env), st.test):
+                        break
+                except Unsupported as e:
+                    if type(e).__name__ == "SymbolicBranch":
+                        # a loop bound, not a shortcut around the loop body
+                        raise Unsupported(f"while loop with a symbolic bound ({e})")
+                    raise
+                n += 1
+                if n > 4096:
+                    raise Unsupported("long loop")
+                try:
+                    r = self.exec_block(st.body, env)
+                except _Break:
+                    broke = True
+                    break
+                except _Continue:
+                    continue
+                if r is not None:
+                    return r
+            if st.orelse and not broke:
+                return self.exec_block(st.orelse, env)
             return None
         if isinstance(st, ast.Break):
             raise _Break()
@@ -564,10 +594,18 @@ class Interp:
                              None if hi is None else _as_int(hi)))
             else:
                 v = self.ev(it, env)
+
+                def one(x):
+                    if isinstance(x, slice):
+                        if x.step is not None:
+                            raise Unsupported("stepped slice")
+                        return (None if x.start is None else _as_int(x.start),
+                                None if x.stop is None else _as_int(x.stop))
+                    return _as_int(x)
                 if isinstance(v, (tuple, list)) and not isinstance(sl, ast.Tuple):
-                    spec.extend(_as_int(x) for x in v)
+                    spec.extend(one(x) for x in v)
                 else:
-                    spec.append(_as_int(v))
+                    spec.append(one(v))
         return spec
 
     def index_arr(self, arr, spec, node):
@@ -752,7 +790,8 @@ class Interp:
                        "tuple", "sum", "min", "max", "enumerate", "zip", "print"):
             return _Builtin(node.id)
         if node.id in ("set", "sorted", "reversed", "dict", "all", "any", "bool", "map",
-                       "frozenset", "divmod", "round", "pow", "callable", "getattr"):
+                       "frozenset", "divmod", "round", "pow", "callable", "getattr", "next",
+                       "iter", "slice"):
             return _Builtin(node.id)
         # module-level names of the module being interpreted (and of maths.py)
         for rel in dict.fromkeys((self.rel_stack[-1], self.rel, "maths.py")):
@@ -997,6 +1036,10 @@ class Interp:
                         and Fraction(k).denominator == 1 and len(seq) <= 2 \
                         and all(isinstance(x, num) for x in seq):
                     return tuple(seq) * int(k)
+                # [zero] * 4: a python list of fields repeated (a row of a block matrix)
+                if isinstance(seq, list) and isinstance(k, int) and not isinstance(k, bool) \
+                        and 0 <= k <= 64 and seq and not _numeric_seq(seq):
+                    return list(seq) * k
         if isinstance(a, num) and isinstance(b, num) and not isinstance(a, bool) \
                 and not isinstance(b, bool):
             if isinstance(op, ast.Add):
@@ -1419,6 +1462,19 @@ class Interp:
             return tot
         if name == "str":
             return str(args[0])
+        if name == "slice":
+            return slice(*args)
+        if name == "iter" and len(args) == 1 and isinstance(args[0], (list, tuple, range)):
+            return list(args[0])
+        if name == "next":
+            # generators are evaluated eagerly to lists (their elements have no effects here)
+            if not isinstance(args[0], (list, tuple, range)):
+                raise Unsupported("next of " + type(args[0]).__name__)
+            if len(args[0]):
+                return args[0][0]
+            if len(args) > 1:
+                return args[1]
+            raise Unsupported("next of an exhausted iterator")
         seqs = (list, tuple, range, str, dict, set, frozenset)
         if name in ("set", "frozenset", "sorted", "reversed", "enumerate", "zip", "dict",
                     "all", "any", "min", "max", "map") and not all(
